@@ -168,6 +168,8 @@ int run_cases(const std::vector<Case> &cases, CaseFn fn, const char *outpath,
 
   std::string errpath = std::string(outpath) + ".stderr";
   size_t next = 0;
+  // NV_FRESH=1: every case in a process of its own (what a case leaves behind in static storage must not reach the next)
+  const bool fresh = getenv("NV_FRESH") != NULL;
 
   while (next < cases.size())
   {
@@ -191,6 +193,7 @@ int run_cases(const std::vector<Case> &cases, CaseFn fn, const char *outpath,
         fflush(o);
         uint32_t done = (uint32_t)i;
         if (write(pfd[1], &done, sizeof(done)) != sizeof(done)) { _exit(3); }
+        if (fresh) { break; }
       }
       fclose(o);
       _exit(0);
@@ -208,6 +211,12 @@ int run_cases(const std::vector<Case> &cases, CaseFn fn, const char *outpath,
     {
       next = cases.size();
       break;
+    }
+
+    if (fresh && last >= (long)next && WIFEXITED(status) && WEXITSTATUS(status) == 0)
+    {
+      next = (size_t)(last + 1);
+      continue;
     }
 
     // the worker died on case last+1
